@@ -78,6 +78,10 @@ def simulated(rnd, i):
                 _, err = outcome(lambda: run_with(Solver(b['pt']), b['q']('TimeInterval', d3, u3), b['q']('TimeInterval', d3 * (n_inst - 1), u3)))
                 if err is None and len(b['pt'].time) != n_inst:
                     err = 'length'
+        if err is None and i % 2 == 1:
+            pw = b['objs'][0].time_variables.get('pwm', [])
+            if len({float(x) for x in pw}) < 2:
+                continue                   # the control never changed the duty cycle: draw another one (the 'pwm' column must VARY)
         if err is None:
             if i % 2 == 0:
                 # the user goes on working with the elements after the simulation (re-zeroes the output, nudges a speed) WITHOUT
